@@ -271,7 +271,7 @@ def run_spec(spec):
         out["stats"] = E.stats
         if out["reach"] == 0 and out["result"] == "holds":
             out.update(result="inconclusive", why="vacuous")
-        if out["result"] == "holds":
+        if out["result"] in ("holds", "inconclusive"):
             U.validate_native(E, paths, lv, conc, out, nmax=1)
         return out
     finally:
